@@ -56,11 +56,18 @@ func c17ProgramB(r *run.Rng) []rec.Op {
 	o := gen.Opts{Coord: coord, RegNum: func(r *run.Rng) float32 { return float32(r.Uniform(-0.1, 1.1)) }, Angle: func(r *run.Rng) float32 { return float32(r.F64()) }, Styling: true, MaxPaths: 3, MaxRuns: 4, ShortRun: true, NoReset: true}
 	var ops []rec.Op
 	// a path that starts with a smooth operation, filled from an unwritten register via ADJ from selector 0
-	ops = append(ops, rec.Op{K: rec.KStartPath, Adj: uint8(r.Intn(7)), F: [6]float32{coord(r), coord(r)}})
-	ops = append(ops, gen.DrawOp(r, gen.DrawVerbs[8+2*r.Intn(2)+4*r.Intn(2)], &o)) // T or S family first
-	ops = append(ops, gen.DrawOp(r, gen.DrawVerbs[r.Intn(len(gen.DrawVerbs))], &o), rec.Op{K: rec.KClosePathEndPath})
+	first := []rec.Op{{K: rec.KStartPath, Adj: uint8(r.Intn(7)), F: [6]float32{coord(r), coord(r)}}}
+	first = append(first, gen.DrawOp(r, gen.DrawVerbs[8+2*r.Intn(2)+4*r.Intn(2)], &o)) // T or S family first
+	first = append(first, gen.DrawOp(r, gen.DrawVerbs[r.Intn(len(gen.DrawVerbs))], &o), rec.Op{K: rec.KClosePathEndPath})
+	// In one program in three the gradient-filled path below is the very first
+	// path of the graphic (per-path flags left by the previous graphic's last
+	// path then meet a gradient fill first), otherwise the smooth path is.
+	gradFirst := r.Chance(1, 3)
+	if !gradFirst {
+		ops = append(ops, first...)
+	}
 	// a gradient whose stops/matrix are partly left at their defaults
-	if r.Bool() {
+	if gradFirst || r.Bool() {
 		nst := r.Pick(2, 3)
 		ops = append(ops, rec.Op{K: rec.KSetNSel, Sel: 30}, rec.Op{K: rec.KSetNReg, Adj: 6, F: [6]float32{0.03}}) // other five matrix registers stay 0
 		ops = append(ops, rec.Op{K: rec.KSetNSel, Sel: 31})                                                       // NREG[30] stays 0: first offset
@@ -70,6 +77,10 @@ func c17ProgramB(r *run.Rng) []rec.Op {
 		// stop colours: palette-initialised registers 30.. (unwritten)
 		ops = append(ops, rec.Op{K: rec.KSetCSel, Sel: 5}, rec.Op{K: rec.KSetCReg, Col: ivg.RGBAColor(gen.MakeGradientValue(30, 30, r.Intn(2), r.Intn(4), nst))})
 		ops = append(ops, rec.Op{K: rec.KStartPath, F: [6]float32{-20, -20}}, rec.Op{K: rec.KAbsLineTo, F: [6]float32{20, -20}}, rec.Op{K: rec.KAbsLineTo, F: [6]float32{0, 20}}, rec.Op{K: rec.KClosePathEndPath})
+	}
+	if gradFirst {
+		ops = append(ops, rec.Op{K: rec.KSetCSel, Sel: 0}, rec.Op{K: rec.KSetNSel, Sel: 0})
+		ops = append(ops, first...)
 	}
 	// a gradient with fewer than two stops, all registers at their defaults: what
 	// the Renderer does with it is unspecified, but it must not depend on whether
@@ -105,6 +116,20 @@ func c17HistoryA(c *run.Ctx, r *run.Rng) (ops []rec.Op, hires bool, kind string)
 			rec.Op{K: rec.KSetCSel, Sel: 3}, rec.Op{K: rec.KSetCReg, Col: ivg.RGBAColor(gen.MakeGradientValue(50, 50, 0, 1, 2))}, rec.Op{K: rec.KSetLOD, F: [6]float32{0, float32(math.Inf(1))}},
 			rec.Op{K: rec.KStartPath, F: [6]float32{-9, -9}}, rec.Op{K: rec.KAbsLineTo, F: [6]float32{9, -9}}, rec.Op{K: rec.KAbsLineTo, F: [6]float32{0, 9}}, rec.Op{K: rec.KClosePathEndPath})
 		c.Count("A_painted_a_gradient", 1)
+	}
+	if r.Chance(1, 3) {
+		// the last path of history A was not drawn: transparent paint, a colour
+		// that is not premultiplied, or a height outside the level-of-detail range
+		switch r.Intn(3) {
+		case 0:
+			ops = append(ops, rec.Op{K: rec.KSetCSel, Sel: 7}, rec.Op{K: rec.KSetCReg, Col: ivg.RGBAColor(color.RGBA{})})
+		case 1:
+			ops = append(ops, rec.Op{K: rec.KSetCSel, Sel: 7}, rec.Op{K: rec.KSetCReg, Col: ivg.RGBAColor(color.RGBA{0xff, 0, 0, 0x20})})
+		default:
+			ops = append(ops, rec.Op{K: rec.KSetCSel, Sel: 7}, rec.Op{K: rec.KSetCReg, Col: ivg.RGBAColor(color.RGBA{0x80, 0, 0, 0xff})}, rec.Op{K: rec.KSetLOD, F: [6]float32{5000, 6000}})
+		}
+		ops = append(ops, rec.Op{K: rec.KStartPath, F: [6]float32{-5, -5}}, rec.Op{K: rec.KAbsLineTo, F: [6]float32{5, -5}}, rec.Op{K: rec.KAbsLineTo, F: [6]float32{0, 5}}, rec.Op{K: rec.KClosePathEndPath})
+		c.Count("A_last_path_not_drawn", 1)
 	}
 	hires = r.Chance(1, 3)
 	if hires {
@@ -194,19 +219,27 @@ func c17Encoder(c *run.Ctx, idx uint64) {
 		c.Count("B_with_helper_readback", 1)
 	}
 	selMismatch := ""
-	runB := func(e *encode.Encoder) ([]byte, error) {
-		e.Reset(vbB, palB)
-		if cs, ns := e.CSel(), e.NSel(); cs != 0 || ns != 0 {
-			selMismatch = fmt.Sprintf("CSel()=%d NSel()=%d right after Reset", cs, ns)
-		}
-		if e.HighResolutionCoordinates {
-			selMismatch = "HighResolutionCoordinates still set right after Reset"
+	// runB encodes program B on e: after Reset(vbB, palB), or — reset false, only
+	// used with the default metadata — on a never-Reset zero-value Encoder. The
+	// gradient helper in B comes from g (a Generator that lives as long as the
+	// Encoder does) or, when g is nil, from a Generator made on the spot.
+	runB := func(e *encode.Encoder, g *generate.Generator, reset bool) ([]byte, error) {
+		if reset {
+			e.Reset(vbB, palB)
+			if cs, ns := e.CSel(), e.NSel(); cs != 0 || ns != 0 {
+				selMismatch = fmt.Sprintf("CSel()=%d NSel()=%d right after Reset", cs, ns)
+			}
+			if e.HighResolutionCoordinates {
+				selMismatch = "HighResolutionCoordinates still set right after Reset"
+			}
 		}
 		e.HighResolutionCoordinates = hiresB
 		for i := range b {
 			if i == helperAt {
-				g := generate.Generator{}
-				g.SetDestination(e)
+				if g == nil {
+					g = &generate.Generator{}
+					g.SetDestination(e)
+				}
 				g.SetLinearGradient(0, 0, 8, 8, generate.GradientSpreadPad, []generate.GradientStop{{Offset: 0, Color: color.Black}, {Offset: 1, Color: color.White}})
 			}
 			rec.Apply(e, &b[i])
@@ -214,10 +247,13 @@ func c17Encoder(c *run.Ctx, idx uint64) {
 		out, err := e.Bytes()
 		return append([]byte(nil), out...), err
 	}
-	var reused, fresh, fresh2 []byte
-	var errR, errF error
+	var reused, fresh, fresh2, again3, zero []byte
+	var errR, errF, err3, errZ error
+	defaultMeta := vbB == ivg.DefaultViewBox && palB == ivg.DefaultPalette
 	ok := c.Guard("encoder reuse", func() interface{} { return desc(nil) }, func() {
 		var e encode.Encoder
+		var gR generate.Generator // lives as long as e does
+		gR.SetDestination(&e)
 		e.HighResolutionCoordinates = hiresA
 		for i := range a {
 			rec.Apply(&e, &a[i])
@@ -236,21 +272,29 @@ func c17Encoder(c *run.Ctx, idx uint64) {
 				c.Violate("encoder/reset-does-not-clear-resolution-flag", desc(nil))
 			}
 		}
-		reused, errR = runB(&e)
+		reused, errR = runB(&e, &gR, true)
 		// Bytes twice
 		again, err2 := e.Bytes()
 		c.Count("bytes_twice", 1)
 		if (err2 == nil) != (errR == nil) || !bytes.Equal(again, reused) {
 			c.Violate("encoder/bytes-twice-differ", desc(map[string]interface{}{"first": hx(reused), "second": hx(again)}))
 		}
+		// the same program once more on the same Encoder, through the same Generator
+		again3, err3 = runB(&e, &gR, true)
 		var f encode.Encoder
-		fresh, errF = runB(&f)
+		fresh, errF = runB(&f, nil, true)
 		var f2 encode.Encoder
 		// Reset clears the public resolution flag also when it is the very
 		// first call on a zero-value Encoder
 		f2.HighResolutionCoordinates = true
-		fresh2, _ = runB(&f2)
+		fresh2, _ = runB(&f2, nil, true)
 		c.Count("encode_twice", 1)
+		if defaultMeta {
+			// a fresh object is also a zero-value Encoder that is never Reset (default metadata implied)
+			var f0 encode.Encoder
+			zero, errZ = runB(&f0, nil, false)
+			c.Count("never_reset_zero_value_encoders", 1)
+		}
 	})
 	if !ok {
 		return
@@ -276,6 +320,14 @@ func c17Encoder(c *run.Ctx, idx uint64) {
 		for ; i < len(reused) && i < len(fresh) && reused[i] == fresh[i]; i++ {
 		}
 		c.Violate("encoder/reused-differs-from-fresh", desc(map[string]interface{}{"first_difference_at": i, "reused": hx(reused), "fresh": hx(fresh)}))
+		return
+	}
+	if err3 != nil || !bytes.Equal(again3, fresh) {
+		c.Violate("encoder/same-program-again-on-same-objects-differs", desc(map[string]interface{}{"error": errStr(err3), "again": hx(again3), "fresh": hx(fresh)}))
+		return
+	}
+	if defaultMeta && (errZ != nil || !bytes.Equal(zero, fresh)) {
+		c.Violate("encoder/never-reset-zero-value-differs-from-reset-encoder", desc(map[string]interface{}{"error": errStr(errZ), "zero_value": hx(zero), "reset": hx(fresh)}))
 	}
 }
 
